@@ -116,6 +116,7 @@ def _forms(dim, lam, mu, A, coef_fun):
     def coef_at(field):
         x, y, z = field.Get_coords()
         return coef_fun(np.asarray(x), np.asarray(y), np.asarray(z))
+    bvec = np.array([1.0, 0.5, -0.75])[:dim]
     out = {
         "mass": (1, lambda u, v: u.dot(v), lambda g, f: Operators.Bilinear.UV(g, 1.0, 1, mt)),
         "mass_coef": (1, lambda u, v: 2.5 * u.dot(v), lambda g, f: Operators.Bilinear.UV(g, 2.5, 1, mt)),
@@ -130,8 +131,29 @@ def _forms(dim, lam, mu, A, coef_fun):
                               lambda g, f: Operators.Bilinear.LinearizedElasticity(g, C, mt)),
         "vector_mass": (dim, lambda u, v: u.dot(v), lambda g, f: Operators.Bilinear.UV(g, 1.0, dim, mt)),
         "vector_mass_rho": (dim, lambda u, v: 3.0 * u.dot(v), lambda g, f: Operators.Bilinear.UV(g, 3.0, dim, mt)),
+        # NON-SYMMETRIC forms: no built-in operator exists, the reference is the same quadrature written out from the group's own N, dN and wJ, with the Galerkin
+        # orientation K[test, trial] = a(trial, test) that K u = F needs (row of the test function)
+        "convection": (1, lambda u, v: (u.grad.dot(bvec)) * v, lambda g, f: _quad_convection(g, bvec, mt, 1)),
+        "convection_diffusion": (1, lambda u, v: 0.7 * u.grad.dot(v.grad) + v * (u.grad.dot(bvec)), lambda g, f: 0.7 * np.asarray(Operators.Bilinear.GradUGradV(g, 1.0, mt)) + _quad_convection(g, bvec, mt, 1)),
+        "vector_convection": (dim, lambda u, v: (u.grad @ bvec).dot(v), lambda g, f: _quad_convection(g, bvec, mt, dim)),
     }
     return out
+
+
+def _quad_convection(g, b, mt, dof_n):
+    """K[e, test, trial] = sum_p wJ (b . grad N_trial) N_test  (same component for vector fields), dofs interleaved (node-major)."""
+    N = np.asarray(g.Get_N_pg(mt))[:, 0, :]                      # (nPg, nPe)
+    dN = np.asarray(g.Get_dN_e_pg(mt))                           # (Ne, nPg, dim, nPe)
+    wJ = np.asarray(g.Get_weightedJacobian_e_pg(mt))
+    bd = np.einsum("d,epdn->epn", b[:dN.shape[2]], dN)           # b . grad N_trial
+    Ks = np.einsum("ep,pi,epj->eij", wJ, N, bd)                  # i test, j trial
+    if dof_n == 1:
+        return Ks
+    nPe = N.shape[1]
+    K = np.zeros((Ks.shape[0], nPe * dof_n, nPe * dof_n))
+    for c in range(dof_n):
+        K[:, c::dof_n, c::dof_n] = Ks
+    return K
 
 
 def _geometry(et):
@@ -378,6 +400,78 @@ def ob_simu(physics, et, algo):
     return Verdict(DISCHARGED, backend="native float run of both simulations (1e-10)", detail=f"rel {worst:.1e}")
 
 
+def ob_field_consistent(et):
+    """a Field means the same tensor in its two modes: the combination sum_i U_i * expr(basis function i) equals expr evaluated on the dof values U, for the field, its gradient,
+    (grad u) b and the symmetric gradient (vector fields; every expression is linear in u)."""
+    from EasyFEA.FEM import Field
+    from EasyFEA.FEM._utils import MatrixType
+    from EasyFEA.FEM._linalg import Transpose
+    mesh = _geometry(et)
+    g = mesh.groupElem
+    dim = g.dim
+    fld = Field(g, dim, MatrixType.mass)
+    rng = np.random.default_rng(3)
+    U = rng.normal(size=mesh.Nn * dim)
+    b = np.array([1.0, 0.5, -0.75])[:dim]
+    # (the field VALUE has no evaluated mode -- Field.Interpolate serves it -- so only gradient expressions are compared)
+    exprs = {"grad u": lambda u: u.grad, "(grad u) b": lambda u: u.grad @ b, "grad u + grad u'": lambda u: u.grad + Transpose(u.grad)}
+    n = 0
+    for nm, ex in exprs.items():
+        ev = np.asarray(fld.Evaluate_e(ex, U, returnMeanValues=False))
+        acc = np.zeros_like(ev)
+        for i in range(g.nPe):
+            for c in range(dim):
+                fld._Set_current_active_node(i)
+                fld._Set_current_active_dof(c)
+                gb = np.asarray(ex(fld))
+                w = U.reshape(-1, dim)[np.asarray(g.connect)[:, i], c]
+                acc = acc + gb * w.reshape((-1,) + (1,) * (gb.ndim - 1))
+        n += 1
+        e = float(np.abs(ev - acc).max() / (np.abs(ev).max() + 1e-30))
+        if e > 1e-12:
+            tr = ev.ndim == 4 and np.abs(ev - acc.transpose(0, 1, 3, 2)).max() < 1e-12 * np.abs(ev).max()
+            raise Refuted(f"{et}: `{nm}` written on the basis functions and combined with the dof values differs from the same expression evaluated on the dof values by {e:.3e}"
+                          + (" (it is its transpose)" if tr else "") + ": a form and its post-processing do not mean the same tensor", cex=dict(expression=nm), signature=f"field:consistent:{nm}",
+                          replay=dict(confirmed=True, rel_err=e))
+    return Verdict(DISCHARGED, backend="native run", sub=n)
+
+
+def ob_simu_convection(et):
+    """weak-form simulation of a NON-SYMMETRIC problem with a solution inside the finite-element space: -0.7 lap u + b.grad u = f with u linear.  Galerkin reproduces it exactly
+    (the exact solution satisfies every discrete equation), whatever the mesh -- if and only if the matrix rows belong to the test functions."""
+    from EasyFEA import Mesher, ElemType, Models, Simulations
+    from EasyFEA.FEM import Field, BiLinearForm, LinearForm
+    from EasyFEA.Geoms import Domain, Point
+    import contextlib, io
+    dim = common.elem_infos(et)[2]
+    with contextlib.redirect_stdout(io.StringIO()):
+        if dim == 2:
+            mesh = Mesher().Mesh_2D(Domain(Point(), Point(2, 1), 0.4), [], ElemType[et])
+        else:
+            mesh = Mesher().Mesh_Extrude(Domain(Point(), Point(2, 1), 0.5), [], [0, 0, 1], [2], ElemType[et])
+    b = np.array([1.0, 0.5, -0.75])[:dim]
+    g = np.array([2.0, -1.0, 0.5])[:dim]
+    co = np.asarray(mesh.coord)
+    ex = 1.0 + co[:, :dim] @ g
+    f = float(b @ g)
+    K = BiLinearForm(lambda u, v: 0.7 * u.grad.dot(v.grad) + (u.grad.dot(b)) * v)
+    Fl = LinearForm(lambda v: f * v)
+    groups = [x for x in mesh.Get_list_groupElem(dim)]
+    if len(groups) != 1:
+        raise Unsupported("mixed mesh")
+    sim = Simulations.WeakForms(mesh, Models.WeakForms(Field(mesh.groupElem, 1), K, computeF=Fl))
+    lo, hi = co[:, :dim].min(0), co[:, :dim].max(0)
+    onb = np.where((np.isclose(co[:, :dim], lo) | np.isclose(co[:, :dim], hi)).any(1))[0]
+    sim.add_dirichlet(onb, [ex[onb]], ["u"])
+    with contextlib.redirect_stdout(io.StringIO()):
+        u = np.asarray(sim.Solve()).ravel()
+    err = float(np.abs(u - ex).max() / np.abs(ex).max())
+    if err > 1e-10:
+        raise Refuted(f"{et}: weak-form convection-diffusion with the exact solution u = 1 + g.x in the element space is not reproduced (relative error {err:.3e}): the rows of the assembled "
+                      f"matrix do not belong to the test functions", cex=dict(elemType=et), signature="simu:convection", replay=dict(confirmed=True, rel_err=err))
+    return Verdict(DISCHARGED, backend="native weak-form simulation vs manufactured solution", detail=f"err {err:.1e}")
+
+
 def build(tier, seed):
     obs = []
     for kind in ("bilinear", "linear"):
@@ -385,7 +479,7 @@ def build(tier, seed):
         obs.append(Ob(f"C13.assemble.index.{kind}", ob_assemble_index, (kind,), "P", (f"{FP}::{cls}.Assemble",),
                       clause="values paired with rows_e/columns_e (bilinear) or assembly_e and column 0 (linear); shape (Ndof,Ndof) / (Ndof,1)"))
     types = ["TRI3", "QUAD4", "TRI6", "TETRA4"] if tier == "quick" else ["SEG3", "TRI3", "TRI6", "TRI10", "QUAD4", "QUAD8", "QUAD9", "TETRA4", "TETRA10", "HEXA8", "PRISM6"]
-    names = ["mass", "mass_coef", "mass_product", "mass_product_rev", "grad", "grad_A", "grad_x", "elastic", "elastic_T", "elastic_transpose", "vector_mass", "vector_mass_rho"]
+    names = ["mass", "mass_coef", "mass_product", "mass_product_rev", "convection", "convection_diffusion", "vector_convection", "grad", "grad_A", "grad_x", "elastic", "elastic_T", "elastic_transpose", "vector_mass", "vector_mass_rho"]
     for et in types:
         dim = common.elem_infos(et)[2]
         for nm in names:
@@ -408,6 +502,12 @@ def build(tier, seed):
                               ("elastic", "TETRA4", "elliptic")):
         obs.append(Ob(f"C13.simu.{physics}.{et}.{algo}", ob_simu, (physics, et, algo), "X", ("EasyFEA/Simulations/_weakforms.py::WeakForms.Construct_local_matrix_system",),
                       bound="star patch, 1-2 steps, floats", clause="WeakForms simulation == dedicated simulation (1e-10)", timeout=300))
+    for et in (("TRI3", "QUAD8", "TETRA4") if tier == "quick" else ("TRI3", "TRI6", "QUAD4", "QUAD8", "TETRA4", "HEXA8", "PRISM6")):
+        obs.append(Ob(f"C13.simu.convection.{et}", ob_simu_convection, (et,), "X", (f"{FP}::BiLinearForm.Integrate_e", "EasyFEA/Simulations/_weakforms.py::WeakForms.Construct_local_matrix_system"),
+                      bound="one gmsh mesh", clause="non-symmetric weak form: a solution inside the element space is reproduced (rows belong to test functions)", timeout=600))
+    for et in ("TRI3", "QUAD4", "TETRA4"):
+        obs.append(Ob(f"C13.field.consistent.{et}", ob_field_consistent, (et,), "X", (f"{FD}::Field.grad", f"{FD}::Field.__call__", f"{FD}::Field.Evaluate_e"), bound="2-element patch, one random state",
+                      clause="sum_i U_i expr(basis_i) == expr(evaluated field) for grad u, (grad u) b, grad u + grad u'", timeout=300))
     obs.append(Ob("C13.evaluate.frame", ob_evaluate_frame, (), "E", (f"{FD}::Field.Evaluate_e",), clause="Evaluate_e restores the field's mode on every normal exit"))
     obs.append(Ob("C13.evaluate.sequence", ob_evaluate_sequence, ("QUAD4",), "X", (f"{FD}::Field.Evaluate_e", f"{FP}::BiLinearForm.Integrate_e"), bound="one 5-call sequence on one field",
                   clause="post-processing a field does not change what forms integrate afterwards", timeout=120))
